@@ -2534,12 +2534,19 @@ class TensorDict(TensorDictBase):
             try:
                 dest = self._get_str(key, default=NO_DEFAULT)
                 if best_attempt and _is_tensor_collection(type(dest)):
-                    dest.update(
-                        value,
-                        inplace=True,
-                        non_blocking=non_blocking,
-                        ignore_lock=ignore_lock,
-                    )
+                    # an unchanged non-tensor entry needs no write (non-tensor data has no in-place
+                    # update: re-setting it is refused under lock, e.g. by apply_ on a locked tensordict)
+                    if not (
+                        is_non_tensor(dest)
+                        and is_non_tensor(value)
+                        and dest.tolist() == value.tolist()
+                    ):
+                        dest.update(
+                            value,
+                            inplace=True,
+                            non_blocking=non_blocking,
+                            ignore_lock=ignore_lock,
+                        )
                 else:
                     if dest is not value:
                         try:
